@@ -1,6 +1,7 @@
 """Per-property configuration: theorem obligations, case families, oracle (DESIGN.md §6)."""
 import re
 import refdec
+import oracle_script
 
 
 def outcome(s):
@@ -274,20 +275,43 @@ def oracle_c07(c, a, b):
     return None
 
 
+def _script_oracle(props, walk=False):
+    def o(c, a, b):
+        o.waived = set()
+        if not c.startswith("script "):
+            return None
+        if outcome(a) in ("hang", "abort"):
+            return "script %s" % outcome(a)
+        fails, waived = oracle_script.judge_full(c, a)
+        o.waived = waived
+        for prop, reason, step in fails:
+            if any(p in props for p in prop.split(",")):
+                return "%s [step %d]" % (reason, step)
+        if walk and not a.startswith("noparse") and not waived - {"KF1"}:
+            return oracle_script.walk_rules(c, a)
+        return None
+    o.waived = set()
+    return o
+
+
+oracle_c08 = _script_oracle(("C08",))
+oracle_c09 = _script_oracle(("C09", "C13"))
+oracle_c10 = _script_oracle(("C10",))
+oracle_c11 = _script_oracle(("C11", "C08", "C09"), walk=True)
+
+
+def nontrivial_script(c, a):
+    return " ok b=" in a or a.startswith("ok b=")
+
+
 def nontrivial_accepted(c, a):
     return not a.startswith("noparse")
 
 
 def match_known(known, prop, c, a, b, reason):
-    """a failing case is suppressed only if a listed finding's selector holds for it"""
-    for k in known:
-        sel = SELECTORS.get(k["selector"])
-        if sel and sel(c, a, b, reason):
-            return k
+    """kept for the search loop: a failure reason is never suppressed; by-design findings are waived
+    inside the oracles (oracle.waived) and reported by the check only if KNOWN_FINDINGS lists them"""
     return None
-
-
-SELECTORS = {}
 
 
 def nontrivial_parse(c, a):
@@ -366,6 +390,34 @@ PROPS = {
         "oracle": oracle_c07,
         "nontrivial": lambda c, a: a.startswith("ok") or a.startswith("err"),
         "rule": "accepted packets (4 layouts) x 2 (target, source, mode): sources drawn from the packet's own name suffixes (matches at every depth), case variants, one-character near-misses, unrelated; targets incl. self and names that push the result past 255 bytes",
+        "level": "other", "explanation": "", "assumptions": [],
+    },
+    "C08": {
+        "module": "DnsModel.Theorems.C08", "theorems": [],
+        "families": [{"name": "script", "quick": 2500, "thorough": 100000}],
+        "oracle": oracle_c08, "nontrivial": nontrivial_script, "shrink": False,
+        "rule": "scripts of 1-6 macro operations (open/advance/act/observe/advance, header setters, text insertion, question insertion, rename, recompute, cache reads) over accepted packets in 4 layouts with/without OPT and over empty(); state observed after every operation; non-trivial = distinct scripts with at least one successful mutating operation",
+        "level": "other", "explanation": "", "assumptions": [],
+    },
+    "C09": {
+        "module": "DnsModel.Theorems.C09", "theorems": [],
+        "families": [{"name": "script", "quick": 2500, "thorough": 100000}],
+        "oracle": oracle_c09, "nontrivial": nontrivial_script, "shrink": False,
+        "rule": "same scripts as C08; after every operation the decoded message is compared with the message before plus exactly the specified change",
+        "level": "other", "explanation": "", "assumptions": [],
+    },
+    "C10": {
+        "module": "DnsModel.Theorems.C10", "theorems": [],
+        "families": [{"name": "script-big", "quick": 0, "thorough": 0, "fixed": True}, {"name": "script-fail", "quick": 2500, "thorough": 100000}, {"name": "script", "quick": 500, "thorough": 20000}],
+        "oracle": oracle_c10, "nontrivial": lambda c, a: "err:" in a, "shrink": False,
+        "rule": "scripts biased to failing arguments (ill-formed / over-long names, tombstone cursors, malformed and out-of-range record texts, second question, overflowing renames); non-trivial = distinct scripts in which at least one operation failed",
+        "level": "other", "explanation": "", "assumptions": [],
+    },
+    "C11": {
+        "module": "DnsModel.Theorems.C11", "theorems": [],
+        "families": [{"name": "delete-walks", "quick": 0, "thorough": 0, "fixed": True}],
+        "oracle": oracle_c11, "nontrivial": lambda c, a: "delete" in c, "shrink": False,
+        "rule": "every subset of the records of a section of size 0..5 deleted from within one walk, for the three record sections and the question, pointer-free and compressed, OPT absent/first/last; exhaustive in both tiers",
         "level": "other", "explanation": "", "assumptions": [],
     },
     "C12": {
